@@ -76,11 +76,13 @@ theorem WF_actOp (l : Layout) (c : Nat) (T fronts : List Nat) (h : WF l) : WF (a
     · exact h
     · exact WF_combine l c _ h
 
-theorem WF_actResize (l : Layout) (f : Nat) (h : WF l) : WF (actResize l f) := by
+theorem WF_actResize (l : Layout) (f : Nat) (shrink : Bool) (h : WF l) : WF (actResize l f shrink) := by
   unfold actResize
   split
   · exact WF_reorder l _ [f] (List.nodup_singleton f) h
-  · exact h
+  · split
+    · exact WF_envOrder l [f] (List.nodup_singleton f) h
+    · exact h
 
 theorem WF_ceTraceOut (l : Layout) (c : Nat) (T : List Nat) (hT : T.Nodup) (h : WF l) : WF (ceTraceOut l c T) := by
   unfold ceTraceOut
